@@ -345,6 +345,29 @@ func c15Oracle(w *World, s *Setup) *Violation {
 						}
 					}
 				}
+				// a cache that has not been filled yet is no view at all: if the hook is asked
+				// before the informer of a related kind delivered its first list, what the
+				// store held all through the sync is what was missed
+				if !w.Cache.Synced(h.Inc, res, h.ParkStep) {
+					for _, o := range storeStable(w, res, sy.StartStep-1, h.ParkStep) {
+						sel := false
+						for _, r := range rules {
+							if r.res == res && r.selects(pres.Namespaced, pns, o) {
+								sel = true
+							}
+						}
+						if !sel || present[objKey{res.Key(), mstr(o, "namespace"), mstr(o, "name")}] {
+							continue
+						}
+						s2 := copySig(s.Sig)
+						s2["cache"] = "not-synced"
+						if v := report(&Violation{Prop: "C15", Class: "selected-object-missing-from-related", Sig: s2, Step: h.ParkStep,
+							Detail: fmt.Sprintf("%s: the hook was asked before the %s informer had delivered its first list; %s %s/%s, selected by the rules %s all through this sync, is missing from related", where, res.Kind, res.Kind, mstr(o, "namespace"), mstr(o, "name"), jsonString(getPath(parent, "spec", "related")))}); v != nil {
+							return v
+						}
+					}
+					w.Probe("c15:hook-asked-before-related-cache-synced")
+				}
 			}
 		}
 		// invalid rules => an error is reported (when the sync got as far as asking the customize hook)
@@ -420,7 +443,22 @@ func C15Scenario() *Scenario {
 		pol.EnvProb = 120
 		pol.HookFault = 50 * t.Pick(3, "hookfaults")
 		pol.HookFaults = []string{"500", "refused", "garbage", "stall"}
-		w.Cfg["policy"] = fmt.Sprintf("%s hookfault=%d", pol.Name, pol.HookFault)
+		// the first lists of the related informers (made when a sync first needs them) fail
+		// for a while: the worker has to wait for them, however long the reflector backs off
+		listFailures := []int{0, 0, 3, 6}[t.Pick(4, "listfailures")]
+		if listFailures > 0 {
+			pol.APIFault = 700
+			pol.APIFaults = []string{"500", "neterr"}
+			pol.FaultFilter = func(r *ReqRec) bool {
+				if listFailures > 0 && r.Verb == "list" && r.Res != nil && (r.Res == ResConfigMap || r.Res == ResSecret) {
+					listFailures--
+					w.Probe("c15:related-list-failed")
+					return true
+				}
+				return false
+			}
+		}
+		w.Cfg["policy"] = fmt.Sprintf("%s hookfault=%d listfailures=%d", pol.Name, pol.HookFault, listFailures)
 		longWait := t.Pick(3, "ttl") == 2
 		// (a parent with an invalid rule set fails every sync by design, so these stages
 		// run for a number of steps instead of waiting for quietness)
